@@ -189,4 +189,287 @@ theorem RInv.run {s : Dir} (h : RInv s) (t : List Op) (hd : RegDisc s t) : RInv 
     simp only [Dir.run, List.foldl_cons]
     exact ih (h.step op hd.1) hd.2
 
+/-! ## fine-grained collection and reader: invariant and preservation -/
+
+structure FInv (s : FSt) : Prop where
+  g : GInv s.base
+  snapJ : ∀ L, s.snap = some L → s.gcLocked = true →
+    ∀ p, s.base.managed.contains p = true → p ∈ living s.base → p ∈ L
+  metaLive : ∀ p ∈ s.metaFiles, p ∈ living s.base ∧ p ∈ s.base.dir
+  rd : ∀ F, s.rlist = some F → ∀ p ∈ F, p ∈ s.base.dir ∧ (∀ l, s.base.pending = some l → p ∉ l)
+  rlNone : s.rdLocked = false → s.rlist = none
+  excl : s.gcLocked = true → s.rdLocked = false
+
+theorem living_track (s : St) (fs : List Path) (p : Path) :
+    p ∈ living (s.step (.track fs)) ↔ p ∈ fs ∨ p ∈ living s := by
+  simp only [living, St.step, List.flatten_cons, List.mem_cons, List.mem_append]
+  constructor
+  · rintro (h | h | h)
+    · exact Or.inr (Or.inl h)
+    · exact Or.inl h
+    · exact Or.inr (Or.inr h)
+  · rintro (h | h | h)
+    · exact Or.inr (Or.inl h)
+    · exact Or.inl h
+    · exact Or.inr (Or.inr h)
+
+theorem living_drop (s : St) (i : Nat) (p : Path) (h : p ∈ living (s.step (.drop i))) : p ∈ living s := by
+  simp only [living, St.step, List.mem_cons] at h ⊢
+  rcases h with h | h
+  · exact Or.inl h
+  · exact Or.inr (mem_flatten_eraseIdx _ _ _ h)
+
+theorem gcDelete_dir (s : St) (q : Path) (ok : Bool) (p : Path) (hp : p ∈ s.dir)
+    (hq : ∀ l, s.pending = some l → q ∈ l → p ≠ q) : p ∈ (s.step (.gcDelete q ok)).dir := by
+  simp only [St.step]
+  cases hpend : s.pending with
+  | none => simpa using hp
+  | some l =>
+    simp only []
+    by_cases hc : q ∈ l
+    · have hne := hq l hpend hc
+      cases ok with
+      | true => simp [hc, hp, hne]
+      | false => simp [hc, hp]
+    · simp [hc, hp]
+
+theorem gcDelete_pending (s : St) (q : Path) (ok : Bool) (l' : List Path)
+    (h : (s.step (.gcDelete q ok)).pending = some l') : ∃ l, s.pending = some l ∧ ∀ p ∈ l', p ∈ l := by
+  simp only [St.step] at h
+  cases hpend : s.pending with
+  | none => simp [hpend] at h
+  | some l =>
+    simp only [hpend] at h
+    refine ⟨l, rfl, ?_⟩
+    by_cases hc : l.contains q = true
+    · cases ok with
+      | true =>
+        simp only [hc, if_true, Option.some.injEq] at h
+        subst h
+        intro p hp; exact (List.mem_filter.mp hp).1
+      | false =>
+        simp only [hc, if_true, Bool.false_eq_true, if_false, Option.some.injEq] at h
+        subst h
+        intro p hp; exact (List.mem_filter.mp hp).1
+    · simp only [hc, Bool.false_eq_true, if_false] at h
+      rw [hpend] at h
+      simp only [Option.some.injEq] at h
+      subst h
+      intro p hp; exact hp
+
+theorem gcFinish_dir (s : St) : (s.step .gcFinish).dir = s.dir := by
+  simp only [St.step]
+  cases s.pending with
+  | none => rfl
+  | some l => cases l <;> rfl
+
+theorem gcFinish_pending (s : St) (l' : List Path) (h : (s.step .gcFinish).pending = some l') :
+    s.pending = some l' := by
+  simp only [St.step] at h
+  cases hpend : s.pending with
+  | none => simp [hpend] at h
+  | some l =>
+    cases l with
+    | nil => simp [hpend] at h
+    | cons a t => simpa [hpend] using h
+
+theorem living_gcFinish (s : St) : living (s.step .gcFinish) = living s := by
+  simp only [St.step, living]
+  cases s.pending with
+  | none => rfl
+  | some l => cases l <;> rfl
+
+theorem living_gcDelete (s : St) (q : Path) (ok : Bool) : living (s.step (.gcDelete q ok)) = living s := by
+  simp only [St.step, living]
+  cases s.pending with
+  | none => rfl
+  | some l =>
+    simp only []
+    by_cases hc : q ∈ l
+    · cases ok <;> simp [hc]
+    · simp [hc]
+
+
+theorem FInv.step {s : FSt} (h : FInv s) (e : FEv) (hok : okF true true s e = true) : FInv (s.step e) := by
+  cases e with
+  | track fs =>
+    simp only [okF] at hok
+    refine ⟨h.g.step _ hok, ?_, ?_, h.rd, h.rlNone, h.excl⟩
+    · intro L hL hl p hm hp
+      rcases (living_track s.base fs p).mp hp with hf | hlv
+      · simp only [okEv, List.all_eq_true] at hok
+        have := hok p hf
+        simp only [show (s.base.managed.contains p) = true from hm, Bool.not_true, Bool.false_or] at this
+        exact h.snapJ L hL hl p hm (by simpa using this)
+      · exact h.snapJ L hL hl p hm hlv
+    · intro p hp
+      exact ⟨(living_track s.base fs p).mpr (Or.inr (h.metaLive p hp).1), (h.metaLive p hp).2⟩
+  | drop i =>
+    simp only [okF, List.all_eq_true] at hok
+    refine ⟨h.g.step (.drop i) rfl, ?_, ?_, h.rd, h.rlNone, h.excl⟩
+    · intro L hL hl p hm hp
+      exact h.snapJ L hL hl p hm (living_drop s.base i p hp)
+    · intro p hp
+      exact ⟨by simpa [FSt.step] using hok p hp, (h.metaLive p hp).2⟩
+  | openWrite q =>
+    simp only [okF, Bool.and_eq_true, Bool.not_eq_true'] at hok
+    refine ⟨h.g.step _ hok.1, ?_, ?_, ?_, h.rlNone, h.excl⟩
+    · intro L _ hl
+      simp only [FSt.step] at hl
+      rw [hok.2] at hl
+      cases hl
+    · intro p hp
+      refine ⟨(h.metaLive p hp).1, ?_⟩
+      simp only [FSt.step, St.step, mem_insertP]
+      exact Or.inr (h.metaLive p hp).2
+    · intro F hF p hp
+      obtain ⟨h1, h2⟩ := h.rd F hF p hp
+      refine ⟨?_, h2⟩
+      simp only [FSt.step, St.step, mem_insertP]
+      exact Or.inr h1
+  | publish fs =>
+    simp only [okF, List.all_eq_true, Bool.and_eq_true] at hok
+    refine ⟨h.g, h.snapJ, ?_, h.rd, h.rlNone, h.excl⟩
+    intro p hp
+    have := hok p hp
+    exact ⟨by simpa [FSt.step] using this.1, by simpa [FSt.step] using this.2⟩
+  | gLock =>
+    simp only [okF, Bool.and_eq_true, Bool.not_eq_true', Option.isNone_iff_eq_none, Bool.not_true,
+      Bool.false_or] at hok
+    refine ⟨h.g, ?_, h.metaLive, h.rd, h.rlNone, fun _ => hok.1.1.2⟩
+    intro L hL
+    simp only [FSt.step] at hL
+    rw [hok.2] at hL
+    cases hL
+  | gLiving =>
+    refine ⟨h.g, ?_, h.metaLive, h.rd, h.rlNone, h.excl⟩
+    intro L hL _ p _ hp
+    simp only [FSt.step, Option.some.injEq] at hL
+    subst hL
+    exact hp
+  | gSelect =>
+    simp only [okF, Bool.and_eq_true, Option.isNone_iff_eq_none] at hok
+    obtain ⟨⟨hlock, hsnap⟩, _⟩ := hok
+    obtain ⟨L, hL⟩ := Option.isSome_iff_exists.mp hsnap
+    refine ⟨?_, ?_, h.metaLive, ?_, h.rlNone, h.excl⟩
+    · intro l hl p hp
+      simp only [FSt.step, Option.some.injEq] at hl
+      subst hl
+      simp only [hL, Option.getD_some, List.mem_filter, Bool.not_eq_true', List.contains_eq_mem,
+        decide_eq_false_iff_not] at hp
+      have hm : s.base.managed.contains p = true := by simpa using hp.1
+      refine ⟨by simpa [FSt.step] using hp.1, ?_⟩
+      intro hlv
+      exact hp.2 (h.snapJ L hL hlock p hm (by simpa [FSt.step, living] using hlv))
+    · intro L' hL' hl p hm hp
+      exact h.snapJ L' (by simpa [FSt.step] using hL') hlock p (by simpa [FSt.step] using hm)
+        (by simpa [FSt.step, living] using hp)
+    · intro F hF
+      have hr := h.excl hlock
+      have := h.rlNone hr
+      simp only [FSt.step] at hF
+      rw [this] at hF
+      cases hF
+  | gUnlock =>
+    refine ⟨h.g, ?_, h.metaLive, h.rd, h.rlNone, ?_⟩
+    · intro L hL
+      simp [FSt.step] at hL
+    · intro hl
+      simp [FSt.step] at hl
+  | gDelete q ok =>
+    simp only [okF, Bool.and_eq_true, Bool.not_eq_true'] at hok
+    have hq : ∀ l, s.base.pending = some l → q ∈ l → q ∉ living s.base :=
+      fun l hl hql => (h.g l hl q hql).2
+    refine ⟨h.g.step _ hok.2, ?_, ?_, ?_, h.rlNone, h.excl⟩
+    · intro L _ hl
+      simp only [FSt.step] at hl
+      rw [hok.1] at hl
+      cases hl
+    · intro p hp
+      obtain ⟨h1, h2⟩ := h.metaLive p hp
+      refine ⟨by simpa [FSt.step, living_gcDelete] using h1, ?_⟩
+      apply gcDelete_dir _ _ _ _ h2
+      intro l hl hql hpq
+      exact hq l hl hql (hpq ▸ h1)
+    · intro F hF p hp
+      obtain ⟨h1, h2⟩ := h.rd F hF p hp
+      refine ⟨?_, ?_⟩
+      · apply gcDelete_dir _ _ _ _ h1
+        intro l hl hql hpq
+        exact h2 l hl (hpq ▸ hql)
+      · intro l' hl' hpl
+        obtain ⟨l, hl, hsub⟩ := gcDelete_pending _ _ _ _ hl'
+        exact h2 l hl (hsub p hpl)
+  | gFinish =>
+    simp only [okF, Bool.not_eq_true'] at hok
+    refine ⟨h.g.step .gcFinish rfl, ?_, ?_, ?_, h.rlNone, h.excl⟩
+    · intro L _ hl
+      simp only [FSt.step] at hl
+      rw [hok] at hl
+      cases hl
+    · intro p hp
+      obtain ⟨h1, h2⟩ := h.metaLive p hp
+      exact ⟨by simpa [FSt.step, living_gcFinish] using h1, by simpa [FSt.step, gcFinish_dir] using h2⟩
+    · intro F hF p hp
+      obtain ⟨h1, h2⟩ := h.rd F hF p hp
+      refine ⟨by simpa [FSt.step, gcFinish_dir] using h1, ?_⟩
+      intro l' hl'
+      exact h2 l' (gcFinish_pending _ _ hl')
+  | rLock =>
+    simp only [okF, Bool.and_eq_true, Bool.not_eq_true'] at hok
+    refine ⟨h.g, h.snapJ, h.metaLive, h.rd, ?_, ?_⟩
+    · intro hl
+      simp [FSt.step] at hl
+    · intro hl
+      simp only [FSt.step] at hl
+      rw [hok.1] at hl
+      cases hl
+  | rList =>
+    refine ⟨h.g, h.snapJ, h.metaLive, ?_, ?_, h.excl⟩
+    · intro F hF p hp
+      simp only [FSt.step, Option.some.injEq] at hF
+      subst hF
+      obtain ⟨h1, h2⟩ := h.metaLive p hp
+      refine ⟨h2, ?_⟩
+      intro l hl hpl
+      exact (h.g l hl p hpl).2 h1
+    · intro hl
+      simp only [okF, Bool.not_true, Bool.false_or] at hok
+      simp only [FSt.step] at hl
+      rw [hok] at hl
+      cases hl
+  | rOpen q => exact h
+  | rUnlock =>
+    refine ⟨h.g, h.snapJ, h.metaLive, ?_, ?_, ?_⟩
+    · intro F hF
+      simp [FSt.step] at hF
+    · intro _
+      simp [FSt.step]
+    · intro _
+      simp [FSt.step]
+
+theorem FInv.safe {s : FSt} (h : FInv s) (evs : List FEv) (hd : FDisc true true s evs = true) :
+    FSafe s evs := by
+  induction evs generalizing s with
+  | nil => trivial
+  | cons e es ih =>
+    simp only [FDisc, Bool.and_eq_true] at hd
+    refine ⟨?_, ih (h.step e hd.1) hd.2⟩
+    cases e with
+    | gDelete p ok =>
+      simp only [okF, Bool.and_eq_true, okEv] at hd
+      cases hpend : s.base.pending with
+      | none => simp [hpend] at hd
+      | some l =>
+        simp only [hpend] at hd
+        exact (h.g l hpend p (by simpa using hd.1.2)).2
+    | rOpen p =>
+      simp only [okF, Bool.and_eq_true] at hd
+      cases hr : s.rlist with
+      | none => simp [hr] at hd
+      | some F =>
+        simp only [hr, Option.getD_some] at hd
+        exact (h.rd F hr p (by simpa using hd.1.2)).1
+    | _ => trivial
+
 end TantivyModel.GC
